@@ -406,6 +406,26 @@ pub fn exec(op: &Op) -> R {
             }
             inv("panic: only valid once, inside a destructor")
         }
+        Op::Shallow(o) => world::with(|w| {
+            let np = w.node_ptr(*o).ok_or("shallow: object not accessible")?;
+            unsafe { &*np }.shallow.set(true);
+            Ok(())
+        }),
+        Op::EscapeOwn(k) => world::with(|w| {
+            let &(me, np) = w.dying_stack.last().ok_or("escapeown: not in a destructor")?;
+            let node = unsafe { &*np };
+            let mut v = node.out.try_borrow_mut().map_err(|_| "escapeown: busy")?;
+            if *k >= v.len() || *k >= w.objs[me as usize].held.len() {
+                return inv("escapeown: no such stored handle");
+            }
+            let rc = v.remove(*k);
+            drop(v);
+            let t = w.objs[me as usize].held.remove(*k);
+            w.stats.handle_escapes += 1;
+            w.push_handle(rc, t);
+            Ok(())
+        }),
+        Op::CloneLate(slot) => exec_clone_late(*slot),
         Op::CloneDead(k) => exec_clone_dead(*k),
         Op::DowngradeOwn(k) => world::with(|w| {
             let &(me, np) = w.dying_stack.last().ok_or("downgradeown: not in a destructor")?;
@@ -588,11 +608,51 @@ fn exec_make_mut(slot: usize) -> R {
             });
         }
     }
-    let (rid, rcan) = {
+    let called = catch_unwind(AssertUnwindSafe(|| {
         let _g = MmGuard;
         let _l = LibGuard::enter();
         let r: &mut Node = Rc::make_mut(&mut rc);
         (r.id, r.canary.get())
+    }));
+    let (rid, rcan) = match called {
+        Ok(x) => x,
+        Err(payload) => {
+            // A destructor panicked while make_mut released the old handle. The assignment that
+            // installs the private copy completes on the unwinding path, so the caller's handle
+            // must refer to the copy now, never to the (possibly destroyed) old object.
+            alloc::restore(false);
+            let addr = Rc::as_ptr(&rc) as usize;
+            let keep = world::with(|w| {
+                w.makemut_pending = None;
+                match w.makemut_cloned.take() {
+                    Some(nid) => {
+                        if addr == w.objs[t as usize].addr {
+                            w.viol(
+                                "live",
+                                true,
+                                format!("a destructor panicked inside make_mut on #{}: the caller's handle still refers to the old object ({:?}) instead of the private copy", t, w.objs[t as usize].state),
+                            );
+                            false
+                        } else {
+                            let block = block_for(w, addr);
+                            w.objs[nid as usize].addr = addr;
+                            w.objs[nid as usize].block = block;
+                            w.addr_index.insert(addr, nid);
+                            w.objs[nid as usize].ext += 1;
+                            w.htarget[slot] = nid;
+                            true
+                        }
+                    }
+                    None => true,
+                }
+            });
+            if keep {
+                world::with(|w| w.handles[slot] = Some(rc));
+            } else {
+                std::mem::forget(rc);
+            }
+            std::panic::resume_unwind(payload);
+        }
     };
     let addr = Rc::as_ptr(&rc) as usize;
     world::with(|w| {
@@ -713,6 +773,44 @@ fn exec_clone_dead(k: usize) -> R {
     Ok(())
 }
 
+fn exec_clone_late(slot: usize) -> R {
+    let p = world::with(|w| -> Result<(*const Rc<Node>, ObjId), String> {
+        let h = w.handles.get(slot).and_then(|h| h.as_ref()).ok_or("clonelate: empty slot")?;
+        let t = w.htarget[slot];
+        if w.objs[t as usize].state == St::Alive {
+            return inv("clonelate: target is alive");
+        }
+        // the allocation must still exist (a Weak keeps it): cloning a handle into released memory
+        // is outside every contract
+        if w.weak(t) == 0 {
+            return inv("clonelate: no Weak keeps the allocation");
+        }
+        Ok((h as *const Rc<Node>, t))
+    })?;
+    let (hp, t) = p;
+    {
+        let out = std::io::stdout();
+        let mut o = out.lock();
+        let _ = writeln!(o, "BEFORE-CLONE me=program target={}", t);
+        let _ = o.flush();
+    }
+    let c = {
+        let _l = LibGuard::enter();
+        unsafe { Rc::clone(&*hp) }
+    };
+    {
+        let out = std::io::stdout();
+        let mut o = out.lock();
+        let _ = writeln!(o, "AFTER-CLONE me=program target={}", t);
+        let _ = o.flush();
+    }
+    world::with(|w| {
+        w.viol("deadclone", true, format!("cloning an escaped handle to destroyed #{} after the collection returned", t));
+    });
+    std::mem::forget(c);
+    Ok(())
+}
+
 fn exec_drop_dead(k: usize) -> R {
     let h = world::with(|w| -> Result<Rc<Node>, String> {
         let &(me, np) = w.dying_stack.last().ok_or("dropdead: not in a destructor")?;
@@ -777,7 +875,8 @@ fn op_touches(w: &World, op: &Op) -> Option<Vec<ObjId>> {
         }
         Op::DropWeak(_) => {}
         Op::Script(o, _, _) => v.push(*o),
-        Op::CloneDead(_) | Op::DropDead(_) | Op::DowngradeOwn(_) => {}
+        Op::CloneDead(_) | Op::DropDead(_) | Op::DowngradeOwn(_) | Op::EscapeOwn(_) | Op::CloneLate(_) => {}
+        Op::Shallow(o) => v.push(*o),
     }
     Some(v)
 }
@@ -811,7 +910,7 @@ pub fn run_scripts(node: &Node, when: When) {
                 return inv("history stopped");
             }
             match &op {
-                Op::Panic | Op::CloneDead(_) | Op::DropDead(_) | Op::DowngradeOwn(_) => return Ok(()),
+                Op::Panic | Op::CloneDead(_) | Op::DropDead(_) | Op::DowngradeOwn(_) | Op::EscapeOwn(_) => return Ok(()),
                 Op::Upgrade(_) => return Ok(()),
                 _ => {}
             }
